@@ -194,6 +194,21 @@ class Check(PropertyCheck):
             jobs = [[(list(op.machines), op.duration) for op in job] for job in inst.jobs]
             ctx["timelimit_status"] = sched.metadata.get("status")
             res += self.check_schedule(inst, jobs, sched, brute=False)
+            # a time limit belongs to the solver object it was given to: after a solve under a (tiny) limit, ANOTHER solver without a
+            # limit still proves optimality (ft06: optimum 55, well beyond a millisecond of search)
+            ft06 = load_benchmark_instance("ft06")
+            try:
+                _ORToolsSolver(max_time_in_seconds=0.001).solve(ft06)
+            except _NoSolution:
+                pass
+            try:
+                free = _ORToolsSolver().solve(ft06)
+            except _NoSolution:
+                res.append(("no-solution", "NoSolutionFoundError from a solver WITHOUT a time limit (ft06), after another solver object solved under one"))
+                return res
+            if free.metadata.get("status") != "optimal" or free.makespan() != 55:
+                res.append(("limit-leaked", f"a solver without a time limit returned status {free.metadata.get('status')} / makespan {free.makespan()} "
+                            "for ft06 (optimum 55) after another solver object solved under a 1 ms limit"))
         elif line.startswith("mark hugedur"):
             # durations beyond 2**53 (odd ones are not representable as doubles): the model is integer arithmetic
             from impl_ext import _ORToolsSolver, _NoSolution
